@@ -2,6 +2,7 @@
 //! from the working tree on every run).  One module per property; harness names are
 //! `<cid>_<q|t>_<what>`: `q` harnesses form the quick tier, the thorough tier runs all.
 #![allow(unused, clippy::all, static_mut_refs)]
+#![recursion_limit = "1024"]
 pub mod util;
 mod probes;
 mod c00;
